@@ -213,6 +213,28 @@ func (ev *Evaler) AddModule(name string, mod *Ns) {
 	ev.modules[name] = mod
 }
 
+// Looks up a module by key. The module table is shared by all evaluations
+// using the Evaler, so all accesses to it are guarded by ev.mu.
+func (ev *Evaler) getModule(fm *Frame, key string) (*Ns, bool) {
+	ev.mu.RLock()
+	defer ev.mu.RUnlock()
+	verifTrace(ev, fm, "modules.read")
+	ns, ok := ev.modules[key]
+	return ns, ok
+}
+
+// Installs a module under key, or removes the key if ns is nil.
+func (ev *Evaler) setModule(fm *Frame, key string, ns *Ns) {
+	ev.mu.Lock()
+	defer ev.mu.Unlock()
+	verifTrace(ev, fm, "modules.write")
+	if ns == nil {
+		delete(ev.modules, key)
+	} else {
+		ev.modules[key] = ns
+	}
+}
+
 // ValuePrefix returns the prefix to prepend to value outputs when writing them
 // to terminal.
 func (ev *Evaler) ValuePrefix() string {
@@ -422,9 +444,10 @@ func (ev *Evaler) Check(src parse.Source, w io.Writer) (error, []string, error) 
 // errors. If w is not nil, deprecation messages are written to it.
 func (ev *Evaler) CheckTree(tree parse.Tree, w io.Writer) ([]string, error) {
 	ev.mu.RLock()
-	b, g, m := ev.builtin, ev.global, ev.modules
-	ev.mu.RUnlock()
+	b, g := ev.builtin, ev.global
 	verifTrace(ev, nil, "modules.iter")
-	_, autofixes, compileErr := compile(b.static(), g.static(), mapKeys(m), tree, w)
+	m := mapKeys(ev.modules)
+	ev.mu.RUnlock()
+	_, autofixes, compileErr := compile(b.static(), g.static(), m, tree, w)
 	return autofixes, compileErr
 }
